@@ -90,6 +90,14 @@ func c01Obs(res *C01RunResult) (string, []string) {
 	keyOf := func(ff string) (string, bool) {
 		f, ok := res.Forks[ff]
 		if !ok {
+			// the fork was renamed after this job had been launched under its name
+			for k := range res.Forks {
+				if strings.HasPrefix(k, ff+"_") {
+					anomalies = append(anomalies, "fork-reexpanded-after-launch: a job ran as "+ff+
+						" but the fork table only has "+k+" …: the fork was expanded again after its job had been launched")
+					return "", false
+				}
+			}
 			anomalies = append(anomalies, "job of unknown fork "+ff)
 			return "", false
 		}
@@ -106,6 +114,10 @@ func c01Obs(res *C01RunResult) (string, []string) {
 				fmt.Fprintf(&sb, " (f %s (i %d))", p.CallId, p.Index)
 			case "map":
 				fmt.Fprintf(&sb, " (f %s (k %s))", p.CallId, c01hx(p.Key))
+			case "unknown":
+				// an undetermined part: only legitimate below a mapped call over an
+				// empty collection (den's "no element" placeholder matches it)
+				fmt.Fprintf(&sb, " (f %s (u))", p.CallId)
 			default:
 				anomalies = append(anomalies, fmt.Sprintf("job launched for fork %s with %s fork part", ff, p.Kind))
 				return "", false
@@ -255,7 +267,7 @@ func c01DupEq(e, o interface{}, dup *bool) bool {
 			}
 			return true
 		}
-		if len(et) == 0 || len(ot)%len(et) != 0 {
+		if len(et) == 0 || len(ot)%len(et) != 0 || len(ot) < 2*len(et) {
 			return false
 		}
 		k := len(ot) / len(et)
@@ -322,6 +334,10 @@ func c01KeyFor(ds []c01Diff, src string) string {
 	if all {
 		return "C01:F14-merge-duplicates-outer-rows"
 	}
+	if ds[0].Class == "forks-under-empty-map" {
+		// several forks of a stage ran below a mapped call over an empty / null collection
+		return "C01:F33-inner-forks-under-null-outer-element"
+	}
 	if strings.HasPrefix(ds[0].Class, "chunk-") {
 		return "C01:" + ds[0].Class
 	}
@@ -376,6 +392,7 @@ func runC01(c *Ctx) {
 	}
 	parallel := 14
 
+	c01KernelDiff(c)
 	cases := c01ReadCorpus(c.Corpus)
 	cases = append(cases, c01ReadCorpus(filepath.Join(filepath.Dir(c.Corpus), "tiera"))...)
 	nCorpus := len(cases)
@@ -467,11 +484,18 @@ func runC01(c *Ctx) {
 			if len(anomalies) > 0 {
 				r.hist("anomaly")
 				key := "C01:anomaly:" + strings.SplitN(anomalies[0], " ", 3)[0]
+				kind := "correspondence"
+				if strings.HasPrefix(anomalies[0], "fork-reexpanded-after-launch:") {
+					// the real run-time ran a job for a fork that it then replaced: the
+					// delivered arguments belong to no stage instance of the semantics
+					key, kind = "C01:F33-fork-reexpanded-after-launch", "property"
+				}
 				if reported[key] < 3 {
 					reported[key]++
-					r.violate(Violation{Kind: "correspondence", Key: key,
+					r.violate(Violation{Kind: kind, Key: key,
 						What:   "the recorded run cannot be mapped to stage instances: " + strings.Join(anomalies, "; "),
 						Input:  map[string]interface{}{"program": cs.src, "name": specs[si].Name, "spec": specs[si]},
+						Impl:   map[string]interface{}{"top_outs": string(res.TopOuts)},
 						Broken: "C01 observation mapping"})
 				}
 				continue
@@ -585,4 +609,41 @@ func c01Trunc(s string, n int) string {
 		return s[:n] + "…"
 	}
 	return s
+}
+
+// C01D: debugging entry: run one program (env C01_MRO) under the first schedule
+// and print jobs, fork table and the driver's verdict.
+func init() {
+	register("C01D", func(c *Ctx) {
+		b, err := os.ReadFile(os.Getenv("C01_MRO"))
+		if err != nil {
+			fatal("%v", err)
+		}
+		si := 0
+		fmt.Sscan(os.Getenv("C01_SCHED"), &si)
+		sp := c01Schedules(c.Seed, 0)[si]
+		sp.Src = string(b)
+		sp.TimeoutS = 15
+		res := c01RunSpec(&sp, c.Scratch)
+		for _, j := range res.Jobs {
+			fmt.Fprintln(os.Stderr, "JOB", j.Fqname, j.Shell, j.Outcome, "args:", c01Trunc(string(j.Args), 300), "outs:", c01Trunc(string(j.Outs), 200))
+		}
+		keys := make([]string, 0, len(res.Forks))
+		for k := range res.Forks {
+			keys = append(keys, k)
+		}
+		sort.Strings(keys)
+		for _, k := range keys {
+			fmt.Fprintf(os.Stderr, "FORK %s %s %+v\n", k, res.Forks[k].Kind, res.Forks[k].Parts)
+		}
+		fmt.Fprintln(os.Stderr, "final:", res.Final, c01Trunc(res.ErrMsg, 300), "top:", string(res.TopOuts), "unsupported:", res.Unsupp)
+		if res.Final == "complete" && res.Program != "" && c.Drv != nil {
+			obs, an := c01Obs(res)
+			fmt.Fprintln(os.Stderr, "anomalies:", an)
+			fmt.Fprintln(os.Stderr, "check:", strings.ReplaceAll(c.Drv.Ask("C01.check", res.Program, obs), "\x1f", " | "))
+			if os.Getenv("C01_DEN") != "" {
+				fmt.Fprintln(os.Stderr, "den:", strings.ReplaceAll(c.Drv.Ask("C01.den", res.Program, obs), "\t", "\n  "))
+			}
+		}
+	})
 }
